@@ -655,12 +655,23 @@ Definition step_acc (a : acc) (o : json) : acc :=
                     negb (existsb (fun kv => any_expired (l_state (snd kv)) t) sy0)
             then (true, [])   (* the storage reported a failure and the operation reported success *)
             else if is_read_op (jfS "op" o) && negb amb then
-              let spec_res now :=
-                if String.eqb (jfS "op" o) "query" then spec_query sy0 o now
-                else if String.eqb (jfS "op" o) "process" then spec_process sy0 o now
-                else snd (run_op (as_linear sy0) o now) in
-              if jfB "amb" (spec_res t) || same_res (spec_res t) obs then (false, [])
-              else if same_res (spec_res t2) obs then (false, []) else (true, kf_of sy0 o)
+              let spec_res (sy : system) now :=
+                if String.eqb (jfS "op" o) "query" then spec_query sy o now
+                else if String.eqb (jfS "op" o) "process" then spec_process sy o now
+                else snd (run_op (as_linear sy) o now) in
+              let agrees (sy : system) :=
+                if jfB "amb" (spec_res sy t) || same_res (spec_res sy t) obs then true
+                else same_res (spec_res sy t2) obs in
+              (* The reference is the index-free (linear) reading of the same state.  When a read meets
+                 an expired item whose purge hits the injected storage failure, LinearState.search /
+                 doFindRules return the storage's error and IndexedState.search / doFindRules log it and
+                 count the item as expired: the specification accepts both, i.e. the answer of the
+                 reference over the same faulty storage (the failure is reported) or over a storage that
+                 works (the item is expired either way).  The second reading also covers a reference that
+                 purges more items than the indexed state's candidates, and so meets a failure that the
+                 observed operation did not. *)
+              if agrees sy0 then (false, [])
+              else if agrees (sys_nofail sy0) then (false, []) else (true, kf_of sy0 o)
             else (false, []) in
       match r with
       | None =>
